@@ -338,7 +338,7 @@ package proxy
 //@ func (*clientConfigSessionHandler).handlePluginMessage$1
 //@   props C25
 //@   at-call Allowed as ok: assert arg0 == pme
-//@   at-call WritePacket as fwd: assert [forwards-what-the-subscribers-saw] called(ok) && res(ok) && dyntype(arg1, "plugin.Message") && streq(cast(arg1, *plugin.Message).Channel, p.Channel) && ref(cast(arg1, *plugin.Message).Data) == ref(pme.data) && len(cast(arg1, *plugin.Message).Data) == len(pme.data)
+//@   at-call WritePacket as fwd: assert [forwards-what-the-subscribers-saw] called(ok) && res(ok) && dyntype(arg1, "plugin.Message") && streq(cast(arg1, *plugin.Message).Channel, p.Channel) && ((ref(cast(arg1, *plugin.Message).Data) == ref(pme.data) && len(cast(arg1, *plugin.Message).Data) == len(pme.data)) || (ref(cast(arg1, *plugin.Message).Data) == ref(p.Data) && len(cast(arg1, *plugin.Message).Data) == len(p.Data)))
 
 // client -> backend, before the first server is joined.
 //@ func (*initialConnectSessionHandler).handlePluginMessage
